@@ -25,7 +25,10 @@ EXPLANATION = (
     "the operators to the reference determinant; a row whose expectation value vanishes identically must return the "
     "canonical zero (the recursion prunes on it); an additional index (general-general rows) may be any index of the "
     "right space by value, but it has to come from the index registry (Indices().get_generic_indices: unique printed "
-    "name) - a new Index object with a fixed name is reported (F34); KroneckerDelta is modelled as sympy/adcgen "
+    "name) - a new Index object with a fixed name is reported (F34) - and it has to be drawn anew by every call: "
+    "_contraction is evaluated three times in one call history on the same / equal general operator pair "
+    "(functools.lru_cache/cache and module-level tables are part of the evaluated state) and the additional indices "
+    "must be pairwise distinct; KroneckerDelta is modelled as sympy/adcgen "
     "evaluate it on construction (1 for identical indices, 0 for occupied/virtual); spin-labelled and non-fermionic "
     "operators must be refused. "
     "R01b: _contract_operator_string evaluated on operator tokens (n=2,4,6; 8 thorough) with the contraction left "
@@ -578,6 +581,40 @@ def r01a(ctx):
                 ctx.check(rule, fn, all(is_num(v) and v == 0 for v in vals), f"{label}: identically vanishing row returns zero",
                           f"contraction table row {label}: the expectation value vanishes for every orbital assignment, but the "
                           f"code returns the expression {show(vals[0])[:160]} instead of zero", key=f"zero {label}")
+    # call history: every contraction of two general indices draws its own additional index - also when the same pair
+    # of operators (the same objects, or equal ones) is contracted again: a result that is memoised around the index
+    # request would make independent contractions share their summation index (sum_i f_ii d_ii for (sum_i f_ii)(sum_j d_jj))
+    for kp, kq in (("F", "Fd"), ("Fd", "F")):
+        for shared in (False, True):
+            def mk_seq():
+                i = _index("p", "general")
+                j = i if shared else _index("q", "general")
+                p1, q1 = _operator(kp, i), _operator(kq, j)
+                return [dict(p=p1, q=q1), dict(p=p1, q=q1), dict(p=_operator(kp, i), q=_operator(kq, j))]
+            sx = Symex(ctx.model, inline=_inline_except(), hooks=_hooks(), what="_contraction (call history)")
+            sx.oracle = _Generic(lambda t: t.op == "delta")
+            sx.concrete_key = _is_index_term
+            outs = _returns(sx.run_sequence([fn, fn, fn], mk_seq), "_contraction")
+            label = f"({kp}_general, {kq}_general)" + (" same index" if shared else "")
+            why = None
+            for o in outs:
+                if o.kind != "return" or any(k != "return" for k, _ in o.value):
+                    why = f"a repeated call does not return: {o}"
+                    break
+                drawn = [{x for x in subterms(_term(v)) if x.op == "fresh"} for _, v in o.value]
+                if any(not d for d in drawn):
+                    continue        # (row without additional index: decided by the value clause above)
+                for a, b in itertools.combinations(range(len(drawn)), 2):
+                    both = drawn[a] & drawn[b]
+                    if both:
+                        why = (f"call {a + 1} and call {b + 1} on {'the same' if (a, b) == (0, 1) else 'equal'} operators return the "
+                               f"same additional index {show(sorted(both, key=repr)[0])}: the result is reused (memoised) "
+                               "around the index request instead of drawing a new index per contraction")
+                        break
+                if why:
+                    break
+            ctx.check(rule, fn, why is None, f"{label}: repeated contraction draws a new additional index every time",
+                      f"contraction table row {label}: {why}", key=f"fresh per call {label}")
     # spin-labelled operators must be refused, non-operators too
     for which in ("p", "q"):
         def mk():
